@@ -6,3 +6,6 @@ import Glas.Props.C03
 #print axioms Glas.Props.C03.glas_mainShape
 #print axioms Glas.Props.C03.runMain_is_items
 #print axioms Glas.Props.C03.C03_module
+#print axioms Glas.Props.C03.glas_policyShape
+#print axioms Glas.Props.C03.tree_is_items
+#print axioms Glas.Props.C03.C03_tree
